@@ -368,7 +368,10 @@ impl GraphEngine {
         let has_properties = runs.iter().any(|r| r.has_properties());
 
         let seg_id = SegmentId(self.next_segment_id.fetch_add(1, Ordering::Relaxed));
-        let mut seg = build_segment_from_runs(seg_id, &runs);
+        // Tombstones are dropped together with the runs, so the new segment must also absorb
+        // the surviving edges of the older segments (and replace them).
+        let old_segments = self.published_segments.read().unwrap().clone();
+        let mut seg = build_segment_from_runs(seg_id, &runs, &old_segments);
 
         {
             let mut pager = self.pager.write().unwrap();
@@ -381,13 +384,7 @@ impl GraphEngine {
         let up_to_txid = runs.iter().map(|r| r.txid()).max().unwrap_or(0);
         let epoch = self.manifest_epoch.load(Ordering::Relaxed) + 1;
 
-        let new_segments = {
-            let current = self.published_segments.read().unwrap().clone();
-            let mut next = Vec::with_capacity(current.len() + 1);
-            next.push(Arc::new(seg));
-            next.extend(current.iter().cloned());
-            Arc::new(next)
-        };
+        let new_segments = Arc::new(vec![Arc::new(seg)]);
 
         // Property Sinking: Persist properties from L0Runs into the B-Tree Property Store.
         let mut sink_node_props = BTreeMap::new();
@@ -642,7 +639,11 @@ impl GraphEngine {
     }
 }
 
-fn build_segment_from_runs(seg_id: SegmentId, runs: &Arc<Vec<Arc<L0Run>>>) -> CsrSegment {
+fn build_segment_from_runs(
+    seg_id: SegmentId,
+    runs: &Arc<Vec<Arc<L0Run>>>,
+    old_segments: &[Arc<CsrSegment>],
+) -> CsrSegment {
     // Apply the same semantics as snapshot merge: newest->oldest, key-based tombstones.
     use std::collections::{BTreeMap, HashSet};
 
@@ -666,6 +667,23 @@ fn build_segment_from_runs(seg_id: SegmentId, runs: &Arc<Vec<Arc<L0Run>>>) -> Cs
         // A run's own edge tombstones only hide older data: an edge that is still in the
         // run was (re-)created after the tombstone (same rule as the read path).
         blocked_edges.extend(run.iter_tombstoned_edges());
+    }
+
+    for seg in old_segments {
+        if seg.edges.is_empty() {
+            continue;
+        }
+        for src in seg.min_src..=seg.max_src {
+            for e in seg.neighbors(src, None) {
+                if blocked_nodes.contains(&e.src)
+                    || blocked_nodes.contains(&e.dst)
+                    || blocked_edges.contains(&e)
+                {
+                    continue;
+                }
+                edges.push(e);
+            }
+        }
     }
 
     edges.sort();
